@@ -269,7 +269,9 @@ class OutboxRelay(Entity):
         """Create a daemon poll event."""
         self._poll_scheduled = True
         return Event(
-            time=self.now + Duration.from_seconds(self._poll_interval),
+            # A positive poll interval below the 1 ns clock resolution truncates to
+            # a zero Duration; keep the poll loop moving forward in time.
+            time=self.now + max(Duration.from_seconds(self._poll_interval), Duration(1)),
             event_type=f"_outbox_poll::{self.name}",
             target=self,
             daemon=True,
